@@ -69,6 +69,31 @@ theorem layout_core (N dx du dh dc dhN dcN : Nat) (k k' : Kind) (t t' : Nat)
   generalize t * S = a at * <;> generalize t' * S = b at * <;> generalize N * S = c at * <;>
   first | omega | (split_ifs <;> omega)
 
+theorem layout_inbounds (N dx du dh dc dhN dcN : Nat) (k : Kind) (t : Nat) (hv : segValid N k t) :
+    segStart (OCPVars.ofProblem N dx du dh dc dhN dcN) k t +
+      segLen (OCPVars.ofProblem N dx du dh dc dhN dcN) k t ≤
+      (OCPVars.ofProblem N dx du dh dc dhN dcN).createSize := by
+  have hN1 : t < N → t * (dx + du + dh + dc) + (dx + du + dh + dc) ≤ N * (dx + du + dh + dc) :=
+    succ_mul_le
+  have hN3 : t = N → t * (dx + du + dh + dc) = N * (dx + du + dh + dc) := by intro h; rw [h]
+  cases k <;>
+  simp only [segValid, segStart, segLen, OCPVars.ofProblem, OCPVars.mk', partialSum,
+    partialSumFrom, xkStart, xkLen, ukStart, ukLen, hkStart, hkLen, ckStart, ckLen, createSize,
+    OCPVars.nu, OCPVars.nh, OCPVars.nc, OCPVars.nx, OCPVars.nh_N, OCPVars.nc_N, OCPVars.size,
+    OCPVars.size_N, i_u, i_h, i_c, i_h_N, i_c_N, List.getD_cons_zero, List.getD_cons_succ,
+    List.getLastD, List.getLast, Nat.zero_add, decide_eq_true_eq] at * <;>
+  generalize hS : dx + du + dh + dc = S at * <;>
+  generalize t * S = a at * <;> generalize N * S = c at * <;>
+  first | omega | (split_ifs <;> omega)
+
+theorem layout_disjoint (N dx du dh dc dhN dcN : Nat) (k k' : Kind) (t t' : Nat)
+    (hv : segValid N k t) (hv' : segValid N k' t') (hne : k ≠ k' ∨ t ≠ t') :
+    segDisj (segStart (OCPVars.ofProblem N dx du dh dc dhN dcN) k t)
+            (segLen (OCPVars.ofProblem N dx du dh dc dhN dcN) k t)
+            (segStart (OCPVars.ofProblem N dx du dh dc dhN dcN) k' t')
+            (segLen (OCPVars.ofProblem N dx du dh dc dhN dcN) k' t') :=
+  (layout_core N dx du dh dc dhN dcN k k' t t' hv hv' hne).1
+
 /-! ### values of the accessors on `ofProblem` -/
 section vals
 variable (N dx du dh dc dhN dcN t : Nat)
